@@ -19,7 +19,7 @@ RULE = ("the decision table of the statement, through model and real code (`buil
         "data). non-trivial = case with at least one violated requirement")
 PARTIAL = ["CubicSpline: C10_spline shows build() = validation followed by the strategy's own build with its error passed through; that this "
            "build succeeds (no error, no panic) on validated data for every lane is C08_spline_build_lanes (non-periodic pairs) and C03_periodic "
-           "(single lane); Periodic on n-d data is covered by the runs"]
+           "(single lane), carried to every lane of n-d data by C08_periodic_lanes / C08_periodic_reject"]
 ASSUMPTIONS = ["non-NaN comparison is a linear order (C10_nan covers NaN without that assumption)"]
 
 
